@@ -258,3 +258,140 @@ Proof.
     apply evs_at_Forall2 in F2. destruct (filter_pos_valid _ _ _ F2) as (out & FP & EVo).
     rewrite FP. cbn [bind]. do 2 eexists. split; [reflexivity|]. now apply list_at_new_list.
 Qed.
+
+(* ------------------------------------------------------------------------- *)
+(* C. flood never raises on a list of Events, whatever the aliasing (so the frame theorem
+   always applies) *)
+
+Definition valid (h : heap) (l : loc) : Prop := exists v, ev_at h l = Some v.
+
+Lemma wr_ts_keeps_valid : forall h l t, valid h l ->
+  exists h', wr_ts h l t = Ok h' /\ forall m, valid h m -> valid h' m.
+Proof.
+  intros h l t (v & H). destruct (wr_ts_valid h l v t H) as (h' & W & Hs & Ho).
+  exists h'. split; auto. intros m (x & Hm). destruct (Nat.eq_dec m l) as [->|N]; [eexists; eauto|].
+  exists x. rewrite Ho; auto.
+Qed.
+
+Lemma wr_dur_keeps_valid : forall h l t, valid h l ->
+  exists h', wr_dur h l t = Ok h' /\ forall m, valid h m -> valid h' m.
+Proof.
+  intros h l t (v & H). destruct (wr_dur_valid h l v t H) as (h' & W & Hs & Ho).
+  exists h'. split; auto. intros m (x & Hm). destruct (Nat.eq_dec m l) as [->|N]; [eexists; eauto|].
+  exists x. rewrite Ho; auto.
+Qed.
+
+Ltac wv_ts l :=
+  match goal with
+  | V1 : valid ?h ?a, V2 : valid ?h ?b |- context [wr_ts ?h l ?t] =>
+      let h' := fresh "h" in let W := fresh "W" in let K := fresh "K" in
+      let Vl := fresh "Vl" in
+      assert (Vl : valid h l) by assumption;
+      destruct (wr_ts_keeps_valid h l t Vl) as (h' & W & K); rewrite W; cbn [bind];
+      pose proof (K _ V1); pose proof (K _ V2); clear V1 V2 Vl W
+  end.
+
+Ltac wv_dur l :=
+  match goal with
+  | V1 : valid ?h ?a, V2 : valid ?h ?b |- context [wr_dur ?h l ?t] =>
+      let h' := fresh "h" in let W := fresh "W" in let K := fresh "K" in
+      let Vl := fresh "Vl" in
+      assert (Vl : valid h l) by assumption;
+      destruct (wr_dur_keeps_valid h l t Vl) as (h' & W & K); rewrite W; cbn [bind];
+      pose proof (K _ V1); pose proof (K _ V2); clear V1 V2 Vl W
+  end.
+
+Lemma keeps_valid_trans : forall (a b c : heap),
+  (forall m, valid a m -> valid b m) -> (forall m, valid b m -> valid c m) -> forall m, valid a m -> valid c m.
+Proof. auto. Qed.
+
+Ltac done_valid := do 2 eexists; split; [reflexivity|]; intros; repeat (match goal with K : forall m, valid _ m -> valid _ m |- _ => apply K; clear K end); assumption.
+
+Lemma flood_step_total : forall pt h ws wu e1 e2,
+  valid h e1 -> valid h e2 ->
+  exists h' fl, flood_step_h pt h ws wu e1 e2 = Ok (h', fl) /\ forall m, valid h m -> valid h' m.
+Proof.
+  intros pt h ws wu e1 e2 V1 V2. pose proof V1 as (v1 & H1). pose proof V2 as (v2 & H2).
+  unfold flood_step_h.
+  rewrite (rd_ts_ok _ _ _ H2), (rd_ts_ok _ _ _ H1), (rd_dur_ok _ _ _ H1). cbn [bind]. cbv zeta.
+  destruct (ts v2 - (ts v1 + dur v1) =? 0)%Z; [do 2 eexists; split; [reflexivity|auto]|].
+  rewrite (data_eq_ok _ _ _ _ _ H1 H2), (rd_dur_ok _ _ _ H2).
+  destruct (ts v2 - (ts v1 + dur v1) <? 0)%Z; cbn [bind].
+  - destruct (data v1 =? data v2)%Z.
+    + wv_ts e1. wv_dur e1. wv_ts e2. wv_dur e2. done_valid.
+    + destruct ((ts v2 - (ts v1 + dur v1) <? - TransformHeap.negative_gap_trim_thres)%Z && negb wu);
+        [do 2 eexists; split; [reflexivity|auto]|].
+      destruct ((- TransformHeap.negative_gap_trim_thres <? ts v2 - (ts v1 + dur v1))%Z && (ts v2 - (ts v1 + dur v1) <=? pt)%Z);
+        [|do 2 eexists; split; [reflexivity|auto]].
+      cbn [bind]. destruct (dur v1 >=? dur v2)%Z.
+      * wv_dur e1. done_valid.
+      * wv_ts e2.
+        match goal with V : valid ?h e2 |- context [rd_ts ?h e2] => destruct V as (x & Hx); rewrite (rd_ts_ok _ _ _ Hx); cbn [bind];
+          assert (valid h e2) by (eexists; eauto) end.
+        wv_dur e2. done_valid.
+  - destruct ((ts v2 - (ts v1 + dur v1) <? - TransformHeap.negative_gap_trim_thres)%Z && negb wu);
+      [do 2 eexists; split; [reflexivity|auto]|].
+    destruct ((- TransformHeap.negative_gap_trim_thres <? ts v2 - (ts v1 + dur v1))%Z && (ts v2 - (ts v1 + dur v1) <=? pt)%Z);
+      [|do 2 eexists; split; [reflexivity|auto]].
+    destruct (dur v1 >=? dur v2)%Z; destruct (data v1 =? data v2)%Z.
+    + wv_dur e1. wv_ts e2. wv_dur e2. done_valid.
+    + wv_dur e1. done_valid.
+    + wv_ts e2.
+      match goal with V : valid ?h e2 |- context [rd_ts ?h e2] => destruct V as (x & Hx); rewrite (rd_ts_ok _ _ _ Hx); cbn [bind];
+        assert (valid h e2) by (eexists; eauto) end.
+      wv_dur e2. wv_dur e1. done_valid.
+    + wv_ts e2.
+      match goal with V : valid ?h e2 |- context [rd_ts ?h e2] => destruct V as (x & Hx); rewrite (rd_ts_ok _ _ _ Hx); cbn [bind];
+        assert (valid h e2) by (eexists; eauto) end.
+      wv_dur e2. done_valid.
+Qed.
+
+Lemma flood_loop_total : forall pt ks h ws wu,
+  (forall k, In k ks -> valid h k) ->
+  exists h', flood_loop_h pt h ws wu ks = Ok h' /\ forall m, valid h m -> valid h' m.
+Proof.
+  intros pt. induction ks as [|e1 rest IH]; intros h ws wu V; cbn [flood_loop_h].
+  - exists h. auto.
+  - destruct rest as [|e2 rest']; [exists h; auto|].
+    destruct (flood_step_total pt h ws wu e1 e2) as (h1 & [ws1 wu1] & S & K1).
+    { apply V. left. reflexivity. } { apply V. right. left. reflexivity. }
+    rewrite S. cbn [bind fst snd].
+    destruct (IH h1 ws1 wu1) as (h' & L & K2).
+    { intros k I. apply K1. apply V. right. exact I. }
+    exists h'. split; auto.
+Qed.
+
+Lemma valid_evs_at : forall h ks, (forall k, In k ks -> valid h k) -> exists vs, evs_at h ks = Some vs.
+Proof.
+  intros h. induction ks as [|k ks IH]; intro V; [exists []; reflexivity|].
+  destruct (V k (or_introl eq_refl)) as (v & Hk). destruct IH as (vs & E); [intros; apply V; right; auto|].
+  exists (v :: vs). rewrite evs_at_cons, Hk, E. reflexivity.
+Qed.
+
+Lemma evs_at_valid : forall h ks vs, evs_at h ks = Some vs -> forall k, In k ks -> valid h k.
+Proof.
+  intros h ks vs H. apply evs_at_Forall2 in H. induction H; intros k I; [destruct I|].
+  destruct I as [<-|I]; [eexists; eauto|auto].
+Qed.
+
+(* any list of Events, any aliasing: flood returns *)
+Theorem flood_h_total : forall h L pt vs,
+  wf h -> list_at h L = Some vs -> exists h' L', flood_h h L pt = Ok (h', L').
+Proof.
+  intros h L pt vs W LA.
+  destruct (list_at_inv _ _ _ LA) as (p & ks & LL & EV).
+  destruct (pdeepcopy_total h L W (lookup_lt _ _ _ LL)) as (h1 & L1 & P).
+  destruct (pdeepcopy_inv _ _ _ _ P) as (m & C).
+  unfold flood_h. rewrite P. cbn [bind fst snd].
+  destruct (copied_cell _ _ _ _ _ _ _ C (cp_root _ _ _ _ _ C)) as (_ & t & ks0 & ks1 & L0 & L1c & F).
+  rewrite (ext_lookup_some _ _ _ _ (cp_ext _ _ _ _ _ C) LL) in L0. inversion L0; subst t ks0.
+  unfold list_elems. rewrite L1c. cbn [bind].
+  destruct (copied_elems _ _ _ _ _ _ _ _ C F EV) as (EV1 & _).
+  destruct (sorted_ts_valid _ _ _ EV1) as (srt & SO & EVs). rewrite SO. cbn [bind].
+  destruct (flood_loop_total pt srt h1 false false (evs_at_valid _ _ _ EVs)) as (h2 & FL & K).
+  rewrite FL. cbn [bind].
+  destruct (valid_evs_at h2 srt) as (vs2 & E2).
+  { intros k I. apply K. eapply evs_at_valid; eauto. }
+  destruct (filter_pos_valid _ _ _ E2) as (out & FP & _). rewrite FP. cbn [bind].
+  do 2 eexists. unfold new_list, alloc. reflexivity.
+Qed.
